@@ -273,3 +273,30 @@ func VH_DecodeFieldValue() {
 		vReach("C13/field-value-decoded")
 	}
 }
+
+
+func init() { vEntries["VH_BuildFieldValues"] = VH_BuildFieldValues }
+
+// VH_BuildFieldValues: every field name of the table (and an unknown one) with right-hand sides
+// that are empty, blank, signs only, half a number, far too large, non-ASCII: data or error.
+func VH_BuildFieldValues() {
+	names := make([]string, 0, len(fieldsTable)+1)
+	for k := range fieldsTable {
+		names = append(names, k)
+	}
+	for i := 1; i < len(names); i++ {
+		for j := i; j > 0 && names[j] < names[j-1]; j-- {
+			names[j], names[j-1] = names[j-1], names[j]
+		}
+	}
+	names = append(names, "nosuchfield")
+	name := names[vChoose("field", len(names))]
+	rhs := []string{"", " ", "-", "+", "0x", "-0x", "-0", "+1", "99999999999999999999", "-99999999999999999999", "a b", "\x00", "\xc3\xa9", "=", "-E", "E", "0x100000000", "1e3", ",", "unset", "b6", "rwxaq", "-1-1"}[vChoose("rhs", 23)]
+	op := []string{"=", "!=", "<", "&="}[vChoose("op", 4)]
+	list := []string{"exit", "user", "task", "exclude"}[vChoose("list", 4)]
+	w, err := Build(&SyscallRule{Type: AppendSyscallRuleType, List: list, Action: "always", Filters: []FilterSpec{{Type: ValueFilterType, LHS: name, Comparator: op, RHS: rhs}}})
+	if err == nil {
+		vReach("C13/hostile-value-accepted")
+		_, _ = ToCommandLine(w, false)
+	}
+}
